@@ -453,6 +453,8 @@ func checkC13(c *Ctx) {
 	// ---------------- R13b shape worlds
 	checkShapeWorlds(c, "R13b")
 	clientQueryWorlds(c, "R13b")
+	r.Rule("R13l", "route registration of a concrete four-method service: every variable a route's registration uses is assigned for that method beforehand (shared with C17/R17f) — a per-method assignment emitted only for some methods leaves a use without a declaration", 1)
+	c17RouteOwnHeaders(c, "R13l")
 }
 
 // clientQueryWorlds — R13b for the Go client's URL builder. (sebuf.http.query) is accepted on a field of any kind and
